@@ -512,15 +512,22 @@ class SymSeq:
         return SymSeq(length, lambda i: SRef(z3.Select(arr, start + i), schema))
 
     def slice(self, lo, hi):
-        """Python slice semantics with clamping; lo/hi z3 Int terms or None (non-negative assumed by caller)"""
+        """Python slice semantics (negative indices count from the end, bounds are clamped); lo/hi: z3 Int terms or None"""
         n = self.length
-        lo_t = z3.IntVal(0) if lo is None else lo
-        hi_t = n if hi is None else hi
-        lo_c = z3.If(lo_t > n, n, lo_t)
-        hi_c = z3.If(hi_t > n, n, hi_t)
+
+        def norm(x, default):
+            if x is None:
+                return default
+            y = z3.If(x < 0, x + n, x)
+            return z3.If(y < 0, z3.IntVal(0), z3.If(y > n, n, y))
+
+        lo_c = norm(lo, z3.IntVal(0))
+        hi_c = norm(hi, n)
         ln = z3.If(hi_c > lo_c, hi_c - lo_c, z3.IntVal(0))
         at = self.at
-        return SymSeq(ln, lambda i: at(lo_c + i))
+        out = SymSeq(ln, lambda i: at(lo_c + i))
+        out.slice_of = (self, lo_c, hi_c)
+        return out
 
     @staticmethod
     def concat(a, b):
